@@ -814,8 +814,14 @@ fn oracle(tera: &Tera, c: &Case, out: &Out) -> Option<String> {
 
 // ---------------------------------------------------------------- generators
 
-const STR_POOL: [&str; 22] =
-    ["", "a", "b", "ab", "abc", "A", "B", "é", "日本", "a.b", "k", "0", "10", "9", "😀", "ß", " ", "aa", "z", "true", "1", "ab"];
+/// includes texts that differ only by trailing NUL characters, at lengths around the 21 bytes an
+/// inline string holds (20, 21, 22) and one long control
+const STR_POOL: [&str; 34] = [
+    "", "a", "b", "ab", "abc", "A", "B", "é", "日本", "a.b", "k", "0", "10", "9", "😀", "ß", " ", "aa", "z", "true", "1", "ab",
+    "\0", "\0\0", "a\0", "ab\0", "ab\0\0", "é\0",
+    "abcdefghij0123456789", "abcdefghij0123456789\0", "abcdefghij0123456789_", "abcdefghij0123456789_\0",
+    "abcdefghij0123456789_long_control", "abcdefghij0123456789_long_control\0",
+];
 
 fn gen_len(rng: &mut Rng, max: usize, big_pct: usize) -> usize {
     let r = rng.below(100);
@@ -1485,6 +1491,11 @@ fn fixed_cases() -> Vec<Case> {
     ]);
     for f in ["unique", "sort"] {
         out.push(Case::new(f, prefixes.clone(), Arg::None));
+    }
+    // texts that differ only by trailing NUL characters are different values
+    let nuls = Value::from(vec![s("ab\0"), s("ab"), s("ab\0\0"), s(""), s("\0"), s("ab"), Value::safe_string("ab\0"), s("abcdefghij0123456789\0"), s("abcdefghij0123456789")]);
+    for f in ["unique", "sort"] {
+        out.push(Case::new(f, nuls.clone(), Arg::None));
     }
     // equal maps with many integer / bool keys, built separately (see `rebuild`): one class
     let big = |w: u8| {
